@@ -1,16 +1,303 @@
 (* C15 — Header encode/decode round-trips and the Internet checksum matches RFC 1071.
    This file contains only the property theorems; each is closed by [exact] of a lemma from
-   Proofs/*.v and followed by Print Assumptions. *)
+   Proofs/{ChecksumP,TcpOptionsP,HdrP}.v and followed by Print Assumptions.
+   Models: Model/Checksum.v, TcpOptions.v, HdrIP.v, HdrTransport.v, HdrLink.v (Go code quoted there);
+   specification vocabulary: Model/Bytes.v ([bits], the independent bit-level reader),
+   Model/HdrRfc.v (each header as its RFC draws it), [rfc1071_sum], [item_bytes].
+
+   Clause of the property text -> theorems
+   (a) "the checksum routine returns the 16-bit one's-complement sum defined by RFC 1071 for every
+       buffer up to 64 KiB and every initial value": C15_checksum_rfc1071, C15_checksum_value,
+       C15_checksum_bound_refuted (the bound 131072 is exact), C15_combine, C15_pseudo_header,
+       C15_checksum_chunks / C15_checksum_odd_chunk_refuted (view-by-view summation);
+   (b) "so a packet carrying the complemented sum always verifies": C15_checksum_verifies;
+   (c) "parsers of variable-length parts (TCP options) never read outside their input":
+       C15_parseSynOptions_no_oob, C15_parseTCPOptions_no_oob (also: terminate);
+   (d) "and recover every option an encoder produced": C15_encoders_wire_format, C15_sack_space,
+       C15_padding, C15_parseSynOptions_recovers, C15_parseTCPOptions_recovers,
+       C15_syn_options_roundtrip, C15_options_roundtrip;
+   (e) "reading the fields back from the encoded bytes returns the values that were encoded":
+       C15_<hdr>_roundtrip; the field domains are tight where stated: C15_<hdr>_outside_refuted;
+   (f) "the bytes match the RFC layout as read by an independent decoder": C15_<hdr>_layout (every
+       accessor = the bit-level reader, on every byte string) and C15_<hdr>_encode_layout. *)
 From Coq Require Import ZArith Bool List.
-From NP Require Import Model.Bytes Model.Checksum Proofs.ChecksumP.
+From NP Require Import Model.Bytes Model.Checksum Model.TcpOptions Model.HdrIP Model.HdrTransport
+  Model.HdrLink Model.HdrRfc Proofs.BytesP Proofs.ChecksumP Proofs.TcpOptionsP Proofs.HdrP.
 Import ListNotations.
 Open Scope Z_scope.
 
-(* "The checksum routine returns the 16-bit one's-complement sum defined by RFC 1071 for every
-   buffer up to 64 KiB and every initial value" — full, for every buffer of at most 131072 bytes
-   (twice what the property asks for) and every uint16 initial value. *)
+(* ------------------------------------------------------------------ (a) *)
+(* full: every buffer of at most 131072 bytes (twice the 64 KiB the property asks for), every
+   uint16 initial value *)
 Theorem C15_checksum_rfc1071 : forall buf init,
   bytes_ok buf -> is_u16 init -> Z.of_nat (length buf) <= 131072 ->
   checksum buf init = rfc1071_sum buf init.
 Proof. exact checksum_rfc1071. Qed.
 Print Assumptions C15_checksum_rfc1071.
+
+(* the value is pinned exactly (the +0 / -0 distinction included) *)
+Theorem C15_checksum_value : forall buf init,
+  bytes_ok buf -> is_u16 init -> Z.of_nat (length buf) <= 131072 ->
+  is_u16 (checksum buf init) /\
+  checksum buf init mod 65535 = (init + zsum (be_words buf)) mod 65535 /\
+  (checksum buf init = 0 <-> init = 0 /\ zsum (be_words buf) = 0).
+Proof. exact checksum_value. Qed.
+Print Assumptions C15_checksum_value.
+
+(* refuted beyond the bound: with 131073 bytes the uint32 accumulator wraps *)
+Theorem C15_checksum_bound_refuted :
+  exists buf init, bytes_ok buf /\ is_u16 init /\ Z.of_nat (length buf) = 131073 /\
+    checksum buf init <> rfc1071_sum buf init.
+Proof. exact checksum_overflow_refuted. Qed.
+Print Assumptions C15_checksum_bound_refuted.
+
+(* ChecksumCombine is one's-complement addition, for all 2^32 argument pairs *)
+Theorem C15_combine : forall a b, is_u16 a -> is_u16 b -> checksumCombine a b = ocadd a b.
+Proof. exact combine_spec. Qed.
+Print Assumptions C15_combine.
+
+Theorem C15_pseudo_header : forall proto src dst,
+  bytes_ok src -> bytes_ok dst -> is_byte proto ->
+  Nat.even (length src) = true -> Nat.even (length dst) = true ->
+  Z.of_nat (length src + length dst) <= 131070 ->
+  pseudoHeaderChecksum proto src dst = rfc1071_sum (src ++ dst ++ [0; proto]) 0.
+Proof. exact pseudoHeaderChecksum_spec. Qed.
+Print Assumptions C15_pseudo_header.
+
+(* summing chunk by chunk = summing the concatenation, provided every non-final chunk has even
+   length (partial); refuted for an odd non-final chunk *)
+Theorem C15_checksum_chunks : forall chunks init,
+  Forall bytes_ok chunks -> is_u16 init -> nonfinal_even chunks ->
+  Z.of_nat (length (concat chunks)) <= 131072 ->
+  checksum_chunks chunks init = checksum (concat chunks) init.
+Proof. exact checksum_chunks_concat. Qed.
+Print Assumptions C15_checksum_chunks.
+
+Theorem C15_checksum_odd_chunk_refuted :
+  exists c1 c2 init, bytes_ok c1 /\ bytes_ok c2 /\ is_u16 init /\
+    checksum c2 (checksum c1 init) <> checksum (c1 ++ c2) init.
+Proof. exact checksum_odd_chunk_refuted. Qed.
+Print Assumptions C15_checksum_odd_chunk_refuted.
+
+(* ------------------------------------------------------------------ (b) *)
+Theorem C15_checksum_verifies : forall pkt k init pkt0 pkt',
+  bytes_ok pkt -> is_u16 init -> Nat.even k = true -> Z.of_nat (length pkt) <= 131072 ->
+  put16 pkt k 0 = Some pkt0 ->
+  put16 pkt k (lnot16 (checksum pkt0 init)) = Some pkt' ->
+  checksum pkt' init = 65535.
+Proof. exact checksum_verifies. Qed.
+Print Assumptions C15_checksum_verifies.
+
+(* ------------------------------------------------------------------ (c) *)
+Theorem C15_parseSynOptions_no_oob : forall opts isAck,
+  bytes_ok opts -> exists r, parseSynOptions opts isAck = Ok r.
+Proof. exact parseSynOptions_no_oob. Qed.
+Print Assumptions C15_parseSynOptions_no_oob.
+
+Theorem C15_parseTCPOptions_no_oob : forall b,
+  bytes_ok b -> exists r, parseTCPOptions b = Ok r.
+Proof. exact parseTCPOptions_no_oob. Qed.
+Print Assumptions C15_parseTCPOptions_no_oob.
+
+(* ------------------------------------------------------------------ (d) *)
+(* any sequence of encoder calls that fits writes exactly the RFC wire format of the items *)
+Theorem C15_encoders_wire_format : forall items P R,
+  Forall wf_item items -> (length (wire items) <= length R)%nat ->
+  emit_items items (P ++ R, length P) =
+  ((P ++ wire items) ++ skipn (length (wire items)) R, length (P ++ wire items)).
+Proof. exact emit_items_wire. Qed.
+Print Assumptions C15_encoders_wire_format.
+
+Theorem C15_sack_space : forall blocks b,
+  blocks <> [] -> (10 <= length b)%nat ->
+  let l := sack_fit (length blocks) (length b) in
+  (1 <= l <= 4)%nat /\ (2 + 8 * l <= length b)%nat /\ length (firstn l blocks) = l /\
+  (length b < 2 + 8 * (l + 1) \/ l = 4 \/ l = length blocks)%nat /\
+  encodeSACKBlocks blocks b = encode_item (ISack (firstn l blocks)) b.
+Proof. exact encodeSACKBlocks_trunc. Qed.
+Print Assumptions C15_sack_space.
+
+Theorem C15_padding : forall options offset b' p,
+  addTCPOptionPadding options offset = Some (b', p) ->
+  0 <= p < 4 /\ (Z.of_nat offset + p) mod 4 = 0 /\
+  b' = firstn offset options ++ wire (repeat INop (Z.to_nat p)) ++ skipn (offset + Z.to_nat p) options.
+Proof. exact addTCPOptionPadding_spec. Qed.
+Print Assumptions C15_padding.
+
+Theorem C15_parseSynOptions_recovers : forall items isAck, Forall wf_item items ->
+  parseSynOptions (wire items) isAck = Ok (fold_left (apply_syn isAck) items syn_default).
+Proof. exact parseSynOptions_items. Qed.
+Print Assumptions C15_parseSynOptions_recovers.
+
+Theorem C15_parseTCPOptions_recovers : forall items, Forall wf_item items ->
+  parseTCPOptions (wire items) = Ok (fold_left apply_opt items opts_default).
+Proof. exact parseTCPOptions_items. Qed.
+Print Assumptions C15_parseTCPOptions_recovers.
+
+(* the two option programs of transport/tcp/connect.go, end to end *)
+Theorem C15_syn_options_roundtrip : forall o isAck buf,
+  wf_syn o -> length buf = maxOptionSize ->
+  exists bytes, make_options (syn_program o) buf = Some (bytes, 0) /\
+    Z.of_nat (length bytes) mod 4 = 0 /\ (length bytes <= 40)%nat /\
+    parseSynOptions bytes isAck = Ok (syn_expected o isAck).
+Proof. exact parse_recovers_syn_options. Qed.
+Print Assumptions C15_syn_options_roundtrip.
+
+Theorem C15_options_roundtrip : forall tsOk tsVal tsEcr sackPermitted blocks buf,
+  wf_opt tsVal tsEcr blocks -> length buf = maxOptionSize ->
+  exists bytes, make_options (opt_program tsOk tsVal tsEcr sackPermitted blocks) buf = Some (bytes, 0) /\
+    Z.of_nat (length bytes) mod 4 = 0 /\ (length bytes <= 40)%nat /\
+    parseTCPOptions bytes =
+      Ok (mkOpts tsOk (if tsOk then tsVal else 0) (if tsOk then tsEcr else 0)
+                 (if sackPermitted then firstn (if tsOk then 3 else 4) blocks else [])).
+Proof. exact parse_recovers_options. Qed.
+Print Assumptions C15_options_roundtrip.
+
+(* ------------------------------------------------------------------ (e), (f): IPv4 *)
+Theorem C15_ipv4_roundtrip : forall b f, (20 <= length b)%nat -> wf_ipv4 f = true ->
+  exists b', ipv4_encode b f = Some b' /\ ipv4_decode b' = Some f /\
+             length b' = length b /\ skipn 20 b' = skipn 20 b /\ ipVersion b' = 4.
+Proof. exact ipv4_roundtrip. Qed.
+Print Assumptions C15_ipv4_roundtrip.
+
+Theorem C15_ipv4_layout : forall b, bytes_ok b -> (20 <= length b)%nat ->
+  ipv4_decode b = Some (ipv4_rfc791 b).
+Proof. exact ipv4_rfc_layout. Qed.
+Print Assumptions C15_ipv4_layout.
+
+Theorem C15_ipv4_encode_layout : forall b f, bytes_ok b -> (20 <= length b)%nat -> wf_ipv4 f = true ->
+  exists b', ipv4_encode b f = Some b' /\ ipv4_rfc791 b' = f /\ ipv4_version_rfc b' = 4.
+Proof. exact ipv4_encode_rfc. Qed.
+Print Assumptions C15_ipv4_encode_layout.
+
+Theorem C15_ipv4_outside_refuted :
+  exists b f, (20 <= length b)%nat /\ ip4IHL f = 64 /\
+    obind (ipv4_encode b f) ipv4_headerLength = Some 0.
+Proof. exact ipv4_outside_refuted. Qed.
+Print Assumptions C15_ipv4_outside_refuted.
+
+(* ------------------------------------------------------------------ IPv6 *)
+Theorem C15_ipv6_roundtrip : forall b f, (40 <= length b)%nat -> wf_ipv6 f = true ->
+  exists b', ipv6_encode b f = Some b' /\ ipv6_decode b' = Some f /\
+             length b' = length b /\ skipn 40 b' = skipn 40 b /\ ipVersion b' = 6.
+Proof. exact ipv6_roundtrip. Qed.
+Print Assumptions C15_ipv6_roundtrip.
+
+Theorem C15_ipv6_layout : forall b, bytes_ok b -> (40 <= length b)%nat ->
+  ipv6_decode b = Some (ipv6_rfc2460 b).
+Proof. exact ipv6_rfc_layout. Qed.
+Print Assumptions C15_ipv6_layout.
+
+Theorem C15_ipv6_encode_layout : forall b f, bytes_ok b -> (40 <= length b)%nat -> wf_ipv6 f = true ->
+  exists b', ipv6_encode b f = Some b' /\ ipv6_rfc2460 b' = f /\ ipv6_version_rfc b' = 6.
+Proof. exact ipv6_encode_rfc. Qed.
+Print Assumptions C15_ipv6_encode_layout.
+
+(* ------------------------------------------------------------------ IPv6 fragment header *)
+Theorem C15_ipv6frag_roundtrip : forall b f, (8 <= length b)%nat -> wf_ipv6frag f = true ->
+  exists b', ipv6frag_encode b f = Some b' /\ ipv6frag_decode b' = Some f /\
+             length b' = length b /\ skipn 8 b' = skipn 8 b.
+Proof. exact ipv6frag_roundtrip. Qed.
+Print Assumptions C15_ipv6frag_roundtrip.
+
+Theorem C15_ipv6frag_layout : forall b, bytes_ok b -> (8 <= length b)%nat ->
+  ipv6frag_decode b = Some (ipv6frag_rfc2460 b).
+Proof. exact ipv6frag_rfc_layout. Qed.
+Print Assumptions C15_ipv6frag_layout.
+
+Theorem C15_ipv6frag_encode_layout : forall b f, bytes_ok b -> (8 <= length b)%nat -> wf_ipv6frag f = true ->
+  exists b', ipv6frag_encode b f = Some b' /\ ipv6frag_rfc2460 b' = f.
+Proof. exact ipv6frag_encode_rfc. Qed.
+Print Assumptions C15_ipv6frag_encode_layout.
+
+Theorem C15_ipv6frag_outside_refuted :
+  exists b f, (8 <= length b)%nat /\ fragFragmentOffset f = 8192 /\
+    obind (ipv6frag_encode b f) ipv6frag_fragmentOffset = Some 0.
+Proof. exact ipv6frag_outside_refuted. Qed.
+Print Assumptions C15_ipv6frag_outside_refuted.
+
+(* ------------------------------------------------------------------ TCP *)
+Theorem C15_tcp_roundtrip : forall b t, (20 <= length b)%nat -> wf_tcp t = true ->
+  exists b', tcp_encode b t = Some b' /\ tcp_decode b' = Some t /\
+             length b' = length b /\ skipn 20 b' = skipn 20 b.
+Proof. exact tcp_roundtrip. Qed.
+Print Assumptions C15_tcp_roundtrip.
+
+Theorem C15_tcp_layout : forall b, bytes_ok b -> (20 <= length b)%nat ->
+  tcp_decode b = Some (tcp_rfc793 b).
+Proof. exact tcp_rfc_layout. Qed.
+Print Assumptions C15_tcp_layout.
+
+Theorem C15_tcp_encode_layout : forall b t, bytes_ok b -> (20 <= length b)%nat -> wf_tcp t = true ->
+  exists b', tcp_encode b t = Some b' /\ tcp_rfc793 b' = t.
+Proof. exact tcp_encode_rfc. Qed.
+Print Assumptions C15_tcp_encode_layout.
+
+Theorem C15_tcp_outside_refuted :
+  exists b t, (20 <= length b)%nat /\ tcpDataOffset t = 64 /\
+    obind (tcp_encode b t) tcp_dataOffset = Some 0.
+Proof. exact tcp_outside_refuted. Qed.
+Print Assumptions C15_tcp_outside_refuted.
+
+(* ------------------------------------------------------------------ UDP *)
+Theorem C15_udp_roundtrip : forall b u, (8 <= length b)%nat -> wf_udp u = true ->
+  exists b', udp_encode b u = Some b' /\ udp_decode b' = Some u /\
+             length b' = length b /\ skipn 8 b' = skipn 8 b.
+Proof. exact udp_roundtrip. Qed.
+Print Assumptions C15_udp_roundtrip.
+
+Theorem C15_udp_layout : forall b, bytes_ok b -> (8 <= length b)%nat -> udp_decode b = Some (udp_rfc768 b).
+Proof. exact udp_rfc_layout. Qed.
+Print Assumptions C15_udp_layout.
+
+Theorem C15_udp_encode_layout : forall b u, bytes_ok b -> (8 <= length b)%nat -> wf_udp u = true ->
+  exists b', udp_encode b u = Some b' /\ udp_rfc768 b' = u.
+Proof. exact udp_encode_rfc. Qed.
+Print Assumptions C15_udp_encode_layout.
+
+(* ------------------------------------------------------------------ ICMPv4 / ICMPv6 *)
+Theorem C15_icmp_roundtrip : forall b f, (4 <= length b)%nat -> wf_icmp f = true ->
+  exists b', icmp_encode b f = Some b' /\ icmp_decode b' = Some f /\
+             length b' = length b /\ skipn 4 b' = skipn 4 b.
+Proof. exact icmp_roundtrip. Qed.
+Print Assumptions C15_icmp_roundtrip.
+
+Theorem C15_icmp_layout : forall b, bytes_ok b -> (4 <= length b)%nat -> icmp_decode b = Some (icmp_rfc792 b).
+Proof. exact icmp_rfc_layout. Qed.
+Print Assumptions C15_icmp_layout.
+
+Theorem C15_icmp_encode_layout : forall b f, bytes_ok b -> (4 <= length b)%nat -> wf_icmp f = true ->
+  exists b', icmp_encode b f = Some b' /\ icmp_rfc792 b' = f.
+Proof. exact icmp_encode_rfc. Qed.
+Print Assumptions C15_icmp_encode_layout.
+
+(* ------------------------------------------------------------------ Ethernet *)
+Theorem C15_eth_roundtrip : forall b e, (14 <= length b)%nat -> wf_eth e = true ->
+  exists b', eth_encode b e = Some b' /\ eth_decode b' = Some e /\
+             length b' = length b /\ skipn 14 b' = skipn 14 b.
+Proof. exact eth_roundtrip. Qed.
+Print Assumptions C15_eth_roundtrip.
+
+Theorem C15_eth_layout : forall b, bytes_ok b -> (14 <= length b)%nat -> eth_decode b = Some (eth_rfc894 b).
+Proof. exact eth_rfc_layout. Qed.
+Print Assumptions C15_eth_layout.
+
+Theorem C15_eth_encode_layout : forall b e, bytes_ok b -> (14 <= length b)%nat -> wf_eth e = true ->
+  exists b', eth_encode b e = Some b' /\ eth_rfc894 b' = e.
+Proof. exact eth_encode_rfc. Qed.
+Print Assumptions C15_eth_encode_layout.
+
+(* ------------------------------------------------------------------ ARP *)
+Theorem C15_arp_roundtrip : forall a f, (28 <= length a)%nat -> wf_arp f = true ->
+  exists a', arp_encode a f = Some a' /\ arp_decode a' = Some f /\ arp_isValid a' = Some true /\
+             length a' = length a /\ skipn 28 a' = skipn 28 a.
+Proof. exact arp_roundtrip. Qed.
+Print Assumptions C15_arp_roundtrip.
+
+Theorem C15_arp_layout : forall a, bytes_ok a -> (28 <= length a)%nat ->
+  arp_decode a = Some (arp_rfc826 a) /\
+  arp_isValid a = Some (match arp_fixed_rfc826 a with
+                        | [h; p; hl; pl] => (h =? 1) && (p =? 2048) && (hl =? 6) && (pl =? 4)
+                        | _ => false end).
+Proof. exact arp_rfc_layout. Qed.
+Print Assumptions C15_arp_layout.
